@@ -19,6 +19,9 @@ pub enum Fault {
     Cancel { delay: u16 },
     /// block at position `pos` (mod n) fails on its k-th work() call
     Fail { pos: u8, k: u8 },
+    /// both at once: the failing call passes `slow` scheduling points before it returns,
+    /// and a canceller cancels after `delay` of its own
+    Both { delay: u16, pos: u8, k: u8, slow: u8 },
 }
 
 #[derive(Clone, Debug, Serialize, Deserialize, PartialEq)]
@@ -38,6 +41,7 @@ struct Outcome {
     calls: Vec<u64>,
     dropped: Vec<bool>,
     cancel_done: bool,
+    failed: bool,
     n: usize,
     names: Vec<String>,
 }
@@ -46,13 +50,20 @@ fn scenario(c: &C07Case, out: Arc<Mutex<Outcome>>) {
     let r = &c.recipe;
     let size = r.pages.max(1) as usize * 4096;
     let endless = c.endless && matches!(c.fault, Fault::Cancel { .. });
+    let cancel_delay = match c.fault {
+        Fault::Cancel { delay } | Fault::Both { delay, .. } => Some(delay),
+        _ => None,
+    };
     let mut b = build_opts(r, Some(size), endless);
     let n = b.blocks.len();
     let shared = Shared::new(n);
     let fail = match c.fault {
-        Fault::Fail { pos, k } => Some((pos as usize % n, k.max(1) as u64)),
+        Fault::Fail { pos, k } | Fault::Both { pos, k, .. } => Some((pos as usize % n, k.max(1) as u64)),
         _ => None,
     };
+    if let Fault::Both { slow, .. } = c.fault {
+        shared.fail_yields.store(slow as u64, Ordering::SeqCst);
+    }
     let names = b.names.clone();
     let blocks = wrap(std::mem::take(&mut b.blocks), &names, &shared, fail);
     let order = add_order(r, n);
@@ -66,7 +77,7 @@ fn scenario(c: &C07Case, out: Arc<Mutex<Outcome>>) {
         o.n = n;
         o.names = names;
     }
-    let canceller = if let Fault::Cancel { delay } = c.fault {
+    let canceller = if let Some(delay) = cancel_delay {
         let tok = g.cancel_token();
         let sh = shared.clone();
         let o2 = out.clone();
@@ -90,6 +101,7 @@ fn scenario(c: &C07Case, out: Arc<Mutex<Outcome>>) {
     o.calls_after_cancel = shared.calls_after_cancel.iter().map(|a| a.load(Ordering::SeqCst)).collect();
     o.calls = shared.calls.iter().map(|a| a.load(Ordering::SeqCst)).collect();
     o.dropped = shared.dropped.iter().map(|a| a.load(Ordering::SeqCst)).collect();
+    o.failed = shared.failed.load(Ordering::SeqCst);
 }
 
 impl Prop for C07 {
@@ -101,6 +113,7 @@ impl Prop for C07 {
         let fault = prop_oneof![
             1 => prop_oneof![Just(0u16), 0u16..30, 0u16..2000].prop_map(|delay| Fault::Cancel { delay }),
             1 => (any::<u8>(), 1u8..7).prop_map(|(pos, k)| Fault::Fail { pos, k }),
+            1 => (prop_oneof![0u16..30, 0u16..400], any::<u8>(), 1u8..5, 0u8..6).prop_map(|(delay, pos, k, slow)| Fault::Both { delay, pos, k, slow }),
         ];
         (recipe_strategy(tier.pick(12_000, 30_000) as u32), any::<bool>(), fault, any::<bool>(), decisions_strategy(tier.pick(400, 1500) as usize))
             .prop_map(|(recipe, mt, fault, endless, decisions)| C07Case { recipe, mt, fault, endless, decisions })
@@ -115,7 +128,7 @@ impl Prop for C07 {
         let ex = explore(&case.decisions, 3_000_000, move || scenario(&c2, o2.clone()));
         let runner = if case.mt { "MTGraph" } else { "Graph" };
         let o = out.lock().unwrap();
-        ctx.class(format!("runner={runner} fault={}", if matches!(case.fault, Fault::Cancel { .. }) { "cancel" } else { "fail" }));
+        ctx.class(format!("runner={runner} fault={}", match case.fault { Fault::Cancel { .. } => "cancel", Fault::Fail { .. } => "fail", Fault::Both { .. } => "cancel+fail" }));
         if let Some(pi) = &ex.panic {
             if ex.step_bound_hit {
                 if ex.fair_steps > 1_500_000 {
@@ -164,6 +177,39 @@ impl Prop for C07 {
                     Err(_) => {}
                 }
             }
+            Fault::Both { pos, k, .. } => {
+                let p = *pos as usize % o.n.max(1);
+                if o.failed {
+                    ctx.class("cancel+fail: failure injected");
+                    if o.cancel_done {
+                        ctx.nontrivial();
+                    }
+                    match ret {
+                        Ok(()) => ctx.fail(
+                            format!("C07/{runner}/failure-reported-as-success"),
+                            format!("block #{p} ({}) failed on its call #{k} (cancellation requested concurrently: {}), but run() returned Ok", o.names[p], o.cancel_done),
+                        ),
+                        Err(e) if !e.contains(&format!("injected#{p}")) => ctx.fail(
+                            format!("C07/{runner}/wrong-error"),
+                            format!("block #{p} failed with 'injected#{p}', run() returned a different error: {e}"),
+                        ),
+                        Err(_) => {}
+                    }
+                } else {
+                    ctx.class("cancel+fail: cancelled before the failure");
+                    if let Err(e) = ret {
+                        ctx.fail(format!("C07/{runner}/spurious-error"), format!("run() returned Err({e}) although no failure was injected"));
+                    }
+                }
+                for (i, c) in o.calls_after_cancel.iter().enumerate() {
+                    if *c > 1 {
+                        ctx.fail(
+                            format!("C07/{runner}/work-calls-after-cancel"),
+                            format!("block #{i} ({}) had {c} work() calls started after cancel() had returned (bound: 1)", o.names[i]),
+                        );
+                    }
+                }
+            }
             Fault::Cancel { .. } => {
                 if let Err(e) = ret {
                     ctx.fail(format!("C07/{runner}/cancel-returned-error"), format!("run() returned an error after cancellation: {e}"));
@@ -186,7 +232,7 @@ impl Prop for C07 {
         }
     }
     fn rule(&self) -> String {
-        "generated: both runners x graph recipe (as C06) x fault plan: either cancel (a canceller task calls cancel() after d of its own scheduling points: before run, during work calls, while everybody waits) or fail (a wrapper block at a generated position returns Err('injected#p') on its k-th call, k in 1..6) x scheduler decision stream; run() executes on the shuttle runtime (for Graph too, so that the canceller interleaves at every stream lock). Oracle: cancel => run() returns, returns Ok, per block at most 1 work() call started after cancel() had returned, and (MTGraph) every block has been dropped; fail => run() returns Err whose text contains the injected marker; a panic, Ok, a different error or non-return is a violation. Non-trivial: the failing block is neither first nor last, or the cancellation landed after blocks had started working; distinct = hash of (recipe, fault, decisions).".into()
+        "generated: both runners x graph recipe (as C06) x fault plan: cancel, fail, or both at once (the failing call passes 0-5 scheduling points before it returns while the canceller runs: a failure must be reported even if cancellation was requested during the failing call); cancel (a canceller task calls cancel() after d of its own scheduling points: before run, during work calls, while everybody waits) or fail (a wrapper block at a generated position returns Err('injected#p') on its k-th call, k in 1..6) x scheduler decision stream; run() executes on the shuttle runtime (for Graph too, so that the canceller interleaves at every stream lock). Oracle: cancel => run() returns, returns Ok, per block at most 1 work() call started after cancel() had returned, and (MTGraph) every block has been dropped; fail => run() returns Err whose text contains the injected marker; a panic, Ok, a different error or non-return is a violation. Non-trivial: the failing block is neither first nor last, or the cancellation landed after blocks had started working; distinct = hash of (recipe, fault, decisions).".into()
     }
     fn assumptions(&self) -> Vec<String> {
         vec![
